@@ -472,6 +472,13 @@ func (p *Program) ruleLoops(c *Check, ea *effAnalysis) {
 				pos := p.Pos(loop.Pos())
 				// audited exceptions first
 				for _, ex := range loopExceptions {
+					// the nudge loop is recognised by its shape wherever it lives (e.g. after extraction into a helper)
+					if ex.fn == "geometry.Segment.Raycast" && ex.fn != fname && !isCounted(loop, info) && loop.Cond != nil {
+						if msg := ex.guard(p, fnode.fd, loop, info); msg == "" {
+							c.OK("E4.T1", con, pos, "nudge loop (shape guard holds): "+ex.why)
+							return true
+						}
+					}
 					if ex.fn == fname && !isCounted(loop, info) {
 						if msg := ex.guard(p, fnode.fd, loop, info); msg == "" {
 							c.OK("E4.T1", con, pos, "audited exception, shape guard holds: "+ex.why)
